@@ -22,6 +22,7 @@ OUT = os.path.join(HERE, "..", "src", "generated", "decls.rs")
 DECL_SEED = int(os.environ.get("VERIF_DECL_SEED", "20260928"))
 N_RANDOM_DECLS = int(os.environ.get("VERIF_N_DECLS", "24"))
 N_HISTORIES = int(os.environ.get("VERIF_N_HIST", "22"))
+N_ENUM_HISTORIES = int(os.environ.get("VERIF_N_ENUM_HIST", "8"))
 
 # field types usable in generated declarations: rust type -> list of default expressions
 TYPES = {
@@ -575,6 +576,15 @@ def main():
                        "HDsV2 { z: %s, c: %s, d: %s }" % (ds("p"), ds("p"), ds("p"))]
     for i in range(N_HISTORIES):
         hists.append(("H%d" % i, history(rng, "H%d" % i), False))
+    # evolution steps on an enum variant: the same histories, each version as the struct variant `S` of an enum (C03)
+    def as_enum(rec):
+        return Enum(rec.name, [Variant("A", "unit", Rec("A", [])), Variant("S", "struct", Rec("S", rec.fields, rec.steps)),
+                               Variant("B", "tuple", Rec("B", [F("field0", "u8")]))])
+    hpe = [Rec(v.name.replace("HPoint", "HPointE"), [f.clone() for f in v.fields], list(v.steps)) for v in h0]
+    hists.append(("HPointE", hpe, True))
+    rng_e = random.Random(DECL_SEED + 7)
+    for i in range(N_ENUM_HISTORIES):
+        hists.append(("HE%d" % i, history(rng_e, "HE%d" % i), True))
 
     out = []
     out.append("// generated by gen/gen_decls.py (DECL_SEED=%d) -- do not edit" % DECL_SEED)
@@ -591,9 +601,12 @@ def main():
             emit_enum(d, out, env_fns)
         names.append(d.name)
     hist_names = []
-    for hname, versions, _ in hists:
+    for hname, versions, is_enum in hists:
         for v in versions:
-            emit_struct(v, out, env_fns)
+            if is_enum:
+                emit_enum(as_enum(v), out, env_fns)
+            else:
+                emit_struct(v, out, env_fns)
         hist_names.append((hname, [v.name for v in versions]))
     # holders that embed an evolved record between siblings
     out.append("\n/// S-expressions of every generated declaration, for the model's environment")
